@@ -294,6 +294,19 @@ struct Proto {
             cix[t][i] = fc[t][i];
           }
         any_update = any_read = true;
+      } else if (fixed == 2) {
+        // adversarial family "ABA under a conditional acquire" (needs T=3, m=2, run with --heap reuse): a reader
+        // inside acquire_if_equal against a writer that replaces the node twice - the second allocation reuses
+        // the address of the node the reader saw, so the reader's re-validation by pointer value succeeds for a
+        // *younger* object - and a third thread that then unlinks and retires that younger object.
+        static const int fo[3][2] = {{OP_READ_IFEQ, OP_NONE}, {OP_REPLACE, OP_REPLACE}, {OP_REPLACE, OP_NONE}};
+        if (T != 3 || m != 2) fail("ENGINE", "fixed=2 needs T=3 m=2");
+        for (int t = 0; t < 3; t++)
+          for (int i = 0; i < 2; i++) {
+            ops[t][i] = fo[t][i];
+            cix[t][i] = 0;
+          }
+        any_update = any_read = true;
       }
       for (int t = 0; t < T && !fixed; t++)
         for (int i = 0; i < m; i++) {
